@@ -6,7 +6,9 @@
 // reported iff the stop block is recorded (or the range is empty) and nothing
 // is written by such a step; a task with a position resumes at position + 1
 // whatever start says, one without begins at start, or at the head seen at
-// first contact when no start is configured; no step panics.
+// first contact when no start is configured; no step panics.  The same for an
+// integration with dependencies, and for two integrations (one bounded, one
+// open) sharing the real jrpc2.Client of one source.
 package main
 
 import (
@@ -158,6 +160,52 @@ func run(cfg lib.Cfg) error {
 				sc.Acts = append(sc.Acts, ts.Steps(1, 3)...)
 				judge(sc, "dep-grid-reference-"+ref)
 			}
+		}
+	}
+	// two integrations on ONE source through the real jrpc2.Client (one client per source,
+	// shared segment caches, maxreads 2), same plan kind, both at the same position; "bounded"
+	// has a stop inside the next batch, "open" has none and asks for the longer batch from the
+	// same first block.  Whatever the order of their steps, bounded may only write up to its
+	// stop: the stop exists only in the limit handed to Source.Get.  Partitions too (conc 2:
+	// the last partition of the clipped batch is shorter than the open task's).
+	shared := 0
+	for _, shape := range []string{"log", "tx"} {
+		for _, c := range []struct {
+			batch, conc int
+			stop, prior uint64 // prior: position both tasks have recorded before (0 = none, start 1)
+			openFirst   bool
+		}{
+			{5, 1, 2, 0, true},
+			{5, 1, 4, 0, true},
+			{6, 2, 5, 0, true}, // partitions (1,3)(4,3) and (1,3)(4,2)
+			{5, 1, 8, 5, true}, // both resume at 6
+			{4, 2, 7, 4, true}, // (5,2)(7,2) and (5,2)(7,1)
+			{5, 1, 3, 0, false},
+		} {
+			shared++
+			sc := &ts.Scenario{Name: fmt.Sprintf("shared-client-%s-batch%dc%d-stop%d-prior%d-openfirst-%v", shape, c.batch, c.conc, c.stop, c.prior, c.openFirst),
+				Seed: uint64(300 + shared), Head: 12, Real: true,
+				Gen:  ts.GenOpts{MaxTxs: 2, MaxLogs: 3, Decoys: true, EmptyProb: 10},
+				Srcs: []ts.SrcSpec{{Name: "main", ChainID: 1, Batch: c.batch, Conc: c.conc, URL: "http://main.invalid"}},
+				IGs: []ts.IGSpec{
+					{Name: "bounded", Shape: shape, Table: "t1", Sources: []ts.SrcRef{{Name: "main", Start: 1, Stop: c.stop}}},
+					{Name: "open", Shape: shape, Table: "t2", Sources: []ts.SrcRef{{Name: "main", Start: 1}}},
+				}}
+			if c.prior > 0 {
+				sc.Preload = []ts.PreCur{{Tid: 1, Num: c.prior}, {Tid: 2, Num: c.prior}}
+			}
+			a, b := 2, 1 // open, bounded
+			if !c.openFirst {
+				a, b = 1, 2
+			}
+			for k := 0; k < 3; k++ {
+				sc.Acts = append(sc.Acts, ts.Act{Do: "step", Tid: a}, ts.Act{Do: "step", Tid: b})
+			}
+			sc.Acts = append(sc.Acts, ts.Act{Do: "restart"}, ts.Act{Do: "grow", K: 3})
+			for k := 0; k < 3; k++ {
+				sc.Acts = append(sc.Acts, ts.Act{Do: "step", Tid: a}, ts.Act{Do: "step", Tid: b})
+			}
+			judge(sc, "shared-real-client-stop-inside-batch")
 		}
 	}
 	out.Notes["dep-grid"] = fmt.Sprintf("%d (stop, batch, reference position) combinations with a dependent integration, in the quick tier: every reference-beyond-stop cell and half of the others per seed", depTotal)
